@@ -138,6 +138,30 @@ def r2(rr, repo):
             dl = [e for e in p.events if e.kind == 'del' and 'logfiles[' in e.term]
             rr.ob('after deleting files the list is trimmed and the reader index re-based', bool(rb) and bool(dl), pmod, ul[0].node, witness=p.pc_text()[-200:], key='rebase')
     rr.floor('pruning paths that delete', k, 1, pmod, pfn)
+    # re-base decision table: the reader keeps its open file and moves its index down by the number of deleted files
+    # when its file survived (index - deleted >= 0); only when its file was deleted (< 0) is it reset and closed
+    rows = set()
+    for p in pp:
+        rel = None
+        term = None
+        for kk, v in p.pc:
+            if kk.startswith('ord(0, self.read_idx - ') or (kk.startswith('ord(self.read_idx - ') and kk.endswith(', 0)')):
+                zero_first = kk.startswith('ord(0, ')
+                rel = ({'<': '>', '>': '<', '=': '='}[v]) if zero_first else v
+                term = kk[7:-1] if zero_first else kk[4:-4]
+        if rel is None:
+            continue
+        rows.add(rel)
+        st = [e for e in p.events if e.kind == 'store' and e.term == 'self.read_idx']
+        closed = [e for e in p.events if e.kind == 'call' and e.term.endswith('.close')] + [e for e in p.events if e.kind == 'store' and e.term == 'self.read_file']
+        if rel in ('=', '>'):
+            ok = bool(st) and st[-1].args[0] == term and not closed
+            rr.ob("the reader's file survived the pruning (index - deleted >= 0): the index is re-based and the open file and offset are kept", ok, pmod, st[-1].node if st else pfn,
+                  witness=f'read_idx - deleted {rel} 0: {[repr(e)[:60] for e in st + closed]}', key=f'rebase-survivor|{rel}')
+        else:
+            ok = bool(st) and st[-1].args[0] == '0'
+            rr.ob("the reader's file was deleted (index - deleted < 0): it restarts at the oldest surviving file", ok, pmod, st[-1].node if st else pfn, witness=str([repr(e)[:60] for e in st]), key='rebase-deleted')
+    rr.floor('orderings of (reader index - deleted files) vs 0 distinguished', len(rows), 3, pmod, pfn)
 
 
 @rule('C13.R3', 'lock discipline: every store to logfiles / logfiles_size / read_idx / read_file / write_file happens under self.lock, in __init__, or in a private helper all of whose call sites are so protected')
